@@ -19,6 +19,16 @@ Histories: one selector object serves several select() calls (chains of related 
     `gen_with_history`); EVERY call is judged against the candidates of that call (model `topKHistory` /
     `greedyHistory`, theorems C20_topk_history / C20_greedy_history; verified checker `checkTopK` per call).
 
+Wave 5: (a) losses of ANY SIGN — `task["shift"]` = the loss function handed to the selector is `loss - c` (a legal Callable
+    loss: negative, zero at the best member / at the start, mixed sign, far from zero), NLL of confident accurate members
+    (`gen_confident_normal`), near-copies of the best member (`_near_copy`); model: C20_greedy_shift_invariant,
+    C20_greedy_gain.  (b) members of ANY KIND — `loader` of a predictor case may be a pattern over M/P/L/F (`_member_kinds`),
+    every in-memory/loader pattern x every finish order; model: `submitJobs`, C20_member_order_any_kind; the driver also
+    checks the hypothesis "ids increase along the predictors list".  (c) online sessions with targets stored as
+    int/uint/bool/float32 and reports as float32 / int / nested lists: the candidates handed to select() are compared with
+    the model `onlineCandidate` (C20_online_candidate) and judged against what the jobs reported (`online-candidates`);
+    TopK selections are judged against the TRUE losses (of the reported predictions).
+
 Robustness rule of this file: nothing the implementation returns, stores or omits may crash the harness.
     * what `select()` returns goes through `_norm_output` (outcome `malformed` -> clause valid-distinct / weights);
     * the candidates' individual losses are computed by the harness (`_own_losses`), never read from what the
@@ -113,6 +123,8 @@ def _make_env(task, preds, k_init_eff):
     inner_loss = {"se": lambda: Lo.SquaredError(), "ae": lambda: Lo.AbsoluteError(),
                   "zo": lambda: Lo.ZeroOneLoss(predict_proba=task["agg"] == "cat"),
                   "cce": lambda: Lo.CategoricalCrossEntropy(), "nll": lambda: Lo.NormalNegLogLikelihood()}[task["loss"]]()
+    if task.get("shift"):
+        inner_loss = _ShiftedLoss(inner_loss, float(task["shift"]))
 
     class RecAgg(Aggregator):
         def aggregate(self, y, weights=None):
@@ -176,6 +188,19 @@ def _make_env(task, preds, k_init_eff):
             return r
 
     return rec, RecAgg(), rec_loss, RecRS, inner_agg, inner_loss
+
+
+class _ShiftedLoss:
+    """a user loss function `loss(y_true, y_pred) - c` (a `Callable` loss is a legal `loss_func`): the library's loss
+    measured from another origin — a score negated to be minimised, a log-likelihood ratio against a baseline, a loss
+    whose additive constants were dropped.  With c > 0 the aggregated losses the selector sees are negative, zero or of
+    mixed sign; with c < 0 they are far from zero.  What the property says of the selection does not depend on c."""
+
+    def __init__(self, base, c):
+        self.base, self.c = base, c
+
+    def __call__(self, y_true, y_pred):
+        return self.base(y_true, y_pred) - self.c
 
 
 def _own_losses(inner_loss, y, preds):
@@ -271,6 +296,8 @@ def build(task):
     S = task["S"]
     if task["kind"] == "reg":
         y = np.array(task["y"], dtype=float).reshape(S, 1)
+        if task.get("y_dtype"):  # validation targets stored as integers / booleans / single precision (values representable)
+            y = y.astype(np.dtype(task["y_dtype"]))
         preds = []
         for p in task["preds"]:
             loc = _arr(p["loc"], (S, 1), p.get("mask"))
@@ -370,6 +397,105 @@ def gen_compensating(rng, n_extra):
     return task, 2 * pairs
 
 
+def gen_confident_normal(rng, n):
+    """probabilistic regressors that are confident and (mostly) accurate: predictive scale well below 1, location within a
+    fraction of it -> the normal negative log-likelihood of the members and of their mixtures is NEGATIVE (density above 1);
+    a quarter of the candidates are over-confident wrong members or vague ones (large positive / mildly positive NLL)"""
+    S = rng.choice([1, 2, 4, 8])
+    y = [rng.randint(-16, 16) / 8 for _ in range(S)]
+    task = {"kind": "reg", "S": S, "masked": False, "agg": "normal", "loss": "nll", "y": y, "noise": 1, "preds": []}
+    for _ in range(n):
+        if rng.random() < 0.25:
+            p = {"loc": [t + rng.choice([-1, 1]) * rng.choice([0.25, 0.5]) for t in y],
+                 "scale": [rng.choice([1 / 16, 1.0, 2.0]) for _ in y]}
+        else:
+            p = {"loc": [t + rng.randint(-4, 4) / 64 for t in y], "scale": [rng.choice([1 / 32, 1 / 16, 1 / 8, 1 / 4]) for _ in y]}
+        task["preds"].append(p)
+    return task
+
+
+def _near_copy(rng, task, p):
+    """a candidate that is almost `p` (the same model trained with another seed): every entry, or one entry, moved by
+    2^-3 .. 2^-10; probabilities are moved between two classes of one row"""
+    q = copy.deepcopy(p)
+    d = 2.0 ** -rng.randint(3, 10)
+    S = task["S"]
+    if task["kind"] == "reg":
+        rows = range(S) if rng.random() < 0.5 else [rng.randrange(S)]
+        sg = rng.choice([-1, 1])
+        for s_ in rows:
+            q["loc"][s_] += sg * d
+        if "scale" in q and rng.random() < 0.5:
+            s_ = rng.randrange(S)
+            q["scale"][s_] += d / 4
+    else:
+        C = task["C"]
+        s_ = rng.randrange(S)
+        row = q["loc"][s_ * C:(s_ + 1) * C]
+        a = max(range(C), key=lambda c: row[c])
+        b = rng.choice([c for c in range(C) if c != a])
+        d = min(d, row[a] / 2)
+        q["loc"][s_ * C + a] -= d
+        q["loc"][s_ * C + b] += d
+    return q
+
+
+def _task_losses(task, k_init):
+    """(own losses of the candidates, loss of the starting ensemble of the k_init best) with the real loss / aggregator of
+    the task, its shift included — used by the generator to place the origin of the loss, never by the oracle"""
+    try:
+        y, preds = build(task)
+        _, _, _, _, inner_agg, inner_loss = _make_env(task, [], 0)
+        losses = _own_losses(inner_loss, y, preds)
+        start = None
+        if all(np.isfinite(v) for v in losses) and preds:
+            init = [int(i) for i in np.argsort(losses)[:k_init]]
+            start = float(np.mean(inner_loss(y, inner_agg.aggregate([preds[i] for i in init]))))
+        return losses, (start if start is not None and np.isfinite(start) else None)
+    except Exception:  # noqa: BLE001 - a tree whose loss / aggregator fails here is judged by the cases, not by the generator
+        return [float("nan")] * len(task["preds"]), None
+
+
+_SHIFT_MODES = ("natural", "neg-small", "neg", "neg", "neg-big", "zero-best", "zero-start", "mixed", "pos")
+
+
+def gen_signed(rng, n):
+    """a greedy case whose aggregated losses are negative, zero, of mixed sign or far from zero — through the loss function
+    itself (NLL of confident members) or through the origin of the loss (`task["shift"]`: loss - c) — among candidates that
+    include near-copies of the best member (steps that change the aggregate by very little, in either direction).
+    -> (task, opts)"""
+    r = rng.random()
+    if r < 0.3:
+        task = gen_confident_normal(rng, n)
+    elif r < 0.4:
+        task, _ = gen_compensating(rng, max(1, n - 2))
+    else:
+        task = gen_task(rng, n)
+    opts = gen_opts(rng, len(task["preds"]))
+    opts["early_stopping"] = rng.random() < 0.85
+    losses, _ = _task_losses(task, opts["k_init"])
+    if all(np.isfinite(v) for v in losses):
+        order = [int(i) for i in np.argsort(losses)]
+        for _ in range(rng.choice([0, 1, 1, 2, 3])):
+            if len(task["preds"]) >= 12:
+                break
+            src = order[0] if rng.random() < 0.7 else rng.choice(order)
+            task["preds"].insert(rng.randrange(len(task["preds"]) + 1), _near_copy(rng, task, task["preds"][src]))
+            losses, _ = _task_losses(task, opts["k_init"])
+            order = [int(i) for i in np.argsort(losses)]
+    mode = rng.choice(_SHIFT_MODES)
+    losses, start = _task_losses(task, opts["k_init"])
+    if mode != "natural" and start is not None and all(np.isfinite(v) for v in losses):
+        top = 2.0 ** int(np.ceil(np.log2(max(1.0, max(abs(v) for v in losses) + 1))))
+        task["shift"] = {"neg-small": min(losses) + 2.0 ** -rng.randint(1, 8), "neg": top * rng.choice([1, 2, 4]),
+                         "neg-big": rng.choice([256.0, 1024.0]), "zero-best": min(losses), "zero-start": start,
+                         "mixed": float(np.median(losses)), "pos": -rng.choice([1.0, 16.0, 1024.0])}[mode]
+        if not task["shift"]:
+            task.pop("shift")
+    task["origin"] = mode
+    return task, opts
+
+
 _RELATIONS = ("other", "other", "same-size", "same-size", "larger", "permuted", "other-target", "other-target",
               "appended", "shrunk", "repeat")
 
@@ -405,6 +531,9 @@ def _next_step(rng, prev, rel):
     else:  # "other": unrelated candidates, any size (smaller, equal or larger)
         t = gen_task(rng, rng.choice([1, 2, 3, 4, 6, 9]), like=prev)
     t["rel"] = rel
+    t.pop("origin", None)
+    if prev.get("shift"):  # one selector object = one loss function: the origin of the loss is that of the object
+        t["shift"] = prev["shift"]
     return t
 
 
@@ -525,7 +654,13 @@ def greedy_compare(opts, res, rep):
     return None
 
 
-def _gfp(clause, task, opts, n, full=False):
+def _sign_class(res, opts):
+    """input-class predicate of a greedy call for the fingerprint: the sign of the loss of its starting ensemble"""
+    v = _start_loss(res, opts)
+    return "negative-loss" if v is not None and v < 0 else ""
+
+
+def _gfp(clause, task, opts, n, full=False, sign=""):
     """fingerprint: the option values / input class that put the case outside the proved region"""
     nd = [f"{k}={opts[k]}" for k in ("early_stopping", "with_replacement", "bagging") if opts[k] != GREEDY_DEFAULTS[k]]
     if opts["max_it"] >= 0:
@@ -535,8 +670,11 @@ def _gfp(clause, task, opts, n, full=False):
         nd, cls = ["early_stopping=False"], []
     elif clause == "terminates" and not opts["early_stopping"] and opts["with_replacement"] and opts["max_it"] < 0:
         nd, cls = ["early_stopping=False", "with_replacement=True", "max_it=-1"], []
-    elif full and task.get("masked"):
-        cls.append("masked")
+    else:
+        if full and task.get("masked"):
+            cls.append("masked")
+        if full and sign:
+            cls.append(sign)
     if task.get("history") and clause not in ("no-worse-than-start", "terminates"):
         cls.append("reused-selector")
     elif task.get("history") and (opts["early_stopping"] or (clause == "terminates" and (not opts["with_replacement"] or opts["max_it"] >= 0))):
@@ -559,15 +697,30 @@ def greedy_oracle(task, opts, res):
     return pre + _greedy_oracle(task, opts, res)
 
 
+def _start_loss(res, opts):
+    """the loss of the starting ensemble of a call, evaluated by the harness (the k_init candidates of lowest own loss,
+    aggregated without weights) -> float | None; never raises"""
+    try:
+        ml = res["losses"]
+        if not ml or not all(np.isfinite(v) for v in ml):
+            return None
+        v = _ens_loss(res, [int(i) for i in np.argsort(ml)[: opts["k_init"]]], None)
+        return v if np.isfinite(v) else None
+    except Exception:  # noqa: BLE001
+        return None
+
+
 def _greedy_oracle(task, opts, res):
     n = len(res["preds"])
     if res["outcome"] == "exc":
         return [("never-fails", res["exc"])]
     if res["outcome"] == "toolong":
-        l0 = res["rec"].L0[1] if res["rec"].L0 else 0.0
-        if opts["early_stopping"] and not (task["loss"] != "nll" and opts["eps_tol"] > 0 and l0 / opts["eps_tol"] + 1 < MAX_ITER):
+        l0 = _start_loss(res, opts)
+        low = -float(task.get("shift") or 0.0)  # the library's losses other than the NLL are >= 0: loss - c >= -c
+        if opts["early_stopping"] and not (task["loss"] != "nll" and opts["eps_tol"] > 0 and l0 is not None
+                                           and (l0 - low) / opts["eps_tol"] + 1 < MAX_ITER):
             # each iteration lowers a loss that is bounded below by more than eps_tol: it terminates, but the bound
-            # (L0 / eps_tol iterations; none for an unbounded loss) is beyond what this run waits for
+            # ((L0 - B) / eps_tol iterations, C20_greedy_terminates; none for an unbounded loss) is beyond what this run waits for
             return [("inconclusive", "long early-stopping run")]
         return [("terminates", f"more than {MAX_ITER} greedy iterations (ensemble of {res['rec']._T} non-unique members)")]
     idx, w = res["indices"], res["weights"]
@@ -626,6 +779,23 @@ def shrink_greedy(task, opts, clause):
                     task = t2
                 else:
                     i += 1
+    def with_shift(t, c):
+        t2 = copy.deepcopy(t)
+        for st in [t2] + list(t2.get("history") or []):
+            if c:
+                st["shift"] = c
+            else:
+                st.pop("shift", None)
+        return t2
+
+    if task.get("shift"):  # the origin of the loss: the library's own loss if the failure does not need another one,
+        for c in (0.0, float(np.ceil(task["shift"])), float(np.round(task["shift"], 2))):  # else a round constant
+            if c != task["shift"]:
+                t2 = with_shift(task, c)
+                if fails(t2, opts):
+                    task = t2
+                    break
+    task.pop("origin", None)
     for _ in range(2):  # masks, options, candidates, then once more on the smaller candidate set
         if task.get("masked"):
             t2 = copy.deepcopy(task)
@@ -744,6 +914,8 @@ def shrink_topk(steps, k, clause):
 
 
 _GATES = {}  # run key -> list of threading.Event (kept out of the predictor objects: job parameters are copied)
+_STUCK = [0]  # gate waits that timed out (a tree on which a member's job never reaches predict breaks the event chain):
+#               after two of them the remaining scripted scenarios wait 0.2 s instead of 10 s (bounded cost on a broken tree)
 
 
 class _Member:
@@ -756,7 +928,8 @@ class _Member:
     def predict(self, X):
         gates = _GATES.get(self.key)
         if gates is not None:
-            gates[self.rank].wait(timeout=10)
+            if not gates[self.rank].wait(timeout=10 if _STUCK[0] < 2 else 0.2):
+                _STUCK[0] += 1
             time.sleep(0.003)
         try:
             if self.fail:
@@ -770,12 +943,31 @@ class _Member:
         return f"_Member({self.i})"
 
 
-def _loader_class():
-    from deephyper.predictor import PredictorLoader
+_KINDS = {}  # member kind letter -> factory(member) (built once: the classes derive from the repo's own base classes)
+_TMP = []  # the temporary directory of the pickled members
+
+
+def _member_kinds():
+    """the kinds of object a member of an EnsemblePredictor may be (`Sequence[Predictor | PredictorLoader]`, freely mixed):
+    M  an in-memory object with a predict method (duck-typed),
+    P  an instance of a subclass of deephyper.predictor.Predictor,
+    L  a PredictorLoader holding the predictor in memory (loaded inside the job),
+    F  a PredictorFileLoader whose load() unpickles the predictor from a file in a temporary directory"""
+    if _KINDS:
+        return _KINDS
+    import atexit
+    import os
+    import pickle
+    import shutil
+    import tempfile
+
+    from deephyper.predictor import Predictor, PredictorFileLoader, PredictorLoader
+
+    class _PMember(_Member, Predictor):
+        def __repr__(self):
+            return f"_PMember({self.i})"
 
     class _Loader(PredictorLoader):
-        """a PredictorLoader: the member is loaded inside the job"""
-
         def __init__(self, member):
             self.member, self.i = member, member.i
 
@@ -785,13 +977,48 @@ def _loader_class():
         def __repr__(self):
             return f"_Loader({self.i})"
 
-    return _Loader
+    class _FileLoader(PredictorFileLoader):
+        def __init__(self, member):
+            if not _TMP:
+                _TMP.append(tempfile.mkdtemp(prefix="c20_members_"))
+                atexit.register(shutil.rmtree, _TMP[0], ignore_errors=True)
+            fd, path = tempfile.mkstemp(suffix=".pkl", dir=_TMP[0])
+            with os.fdopen(fd, "wb") as f:
+                pickle.dump(_Member(member.i, member.rank, member.key, member.fail), f)
+            super().__init__(path)
+            self.i = member.i
+
+        def load(self):
+            with open(self.path_predictor_file, "rb") as f:
+                return pickle.load(f)
+
+        def __repr__(self):
+            return f"_FileLoader({self.i})"
+
+    _KINDS.update(M=lambda m: m, P=lambda m: _PMember(m.i, m.rank, m.key, m.fail), L=_Loader, F=_FileLoader)
+    return _KINDS
+
+
+def _kinds_of(loader, n):
+    """the `loader` field of a predictor case -> one kind letter per member: False = in-memory objects, True = loaders,
+    a string over M/P/L/F = that pattern (repeated / cut to n members); anything else = in-memory objects"""
+    if isinstance(loader, str) and loader and all(c in "MPLF" for c in loader):
+        return (loader * n)[:n]
+    return ("L" if loader is True else "M") * n
+
+
+def _kinds_class(kinds):
+    """input class of a member pattern for the fingerprint"""
+    ld = [c in "LF" for c in kinds]
+    return "loader" if ld and all(ld) else "mixed-members" if any(ld) else ""
 
 
 def run_predictor(finish_order, mode="list", loader=False, fail=None, evaluator="scripted", history=None, via_copy=False):
     """members finish in `finish_order` (list of member indices).
     mode: "list" = predictions_from_predictors, "predict" = predict() (MeanAggregator, weights 1,2,4,…);
-    loader: members are PredictorLoaders; fail: index of a member whose predict raises;
+    loader: True = every member is a PredictorLoader, or a pattern over M/P/L/F (`_member_kinds`: in-memory objects,
+    Predictor subclass instances, loaders, file loaders of pickled members — freely mixed); fail: index of a member
+    whose predict raises;
     evaluator: "scripted" (thread backend, one worker per member, event chain), None / "thread" / dict (the constructor's
     other accepted forms; one worker, completion = submission order);
     history: earlier calls ({"finish_order", "mode", "loader", "fail", "copy"}) made on the SAME EnsemblePredictor — or,
@@ -826,9 +1053,8 @@ def run_predictor(finish_order, mode="list", loader=False, fail=None, evaluator=
             _GATES[key] = gates
         rank = {m: r for r, m in enumerate(order)}
         ms = [_Member(i, rank[i], key, fail=(fail_ == i)) for i in range(len(order))]
-        if loader_:
-            L = _loader_class()
-            ms = [L(m) for m in ms]
+        kinds = _member_kinds()
+        ms = [kinds[c](m) for c, m in zip(_kinds_of(loader_, len(order)), ms)]
         return ms, gates
 
     def one_call(ens, order, mode_, loader_, fail_, copy_):
@@ -932,14 +1158,14 @@ def _greedy_one(ck, d, task, opts, label, res, verbose=False):
         print("replay:", {"impl": {k: res.get(k) for k in ("outcome", "exc", "indices", "weights")}, "oracle": fails or "holds"})
 
     def report(clause, detail):
-        pre = _gfp(clause, task, opts, n, full=True)
+        pre = _gfp(clause, task, opts, n, full=True, sign=_sign_class(res, opts))
         if pre in _SHRUNK:  # same class already minimised in this run: count the occurrence
             ck.fail(_SHRUNK[pre], f"GreedySelector: {clause} fails", case, detail)
             return
         t2, o2 = shrink_greedy(task, opts, clause)
         r2 = run_greedy(t2, o2)
         d2 = [x for c, x in greedy_oracle(t2, o2, r2) if c == clause]
-        _SHRUNK[pre] = _gfp(clause, t2, o2, len(t2["preds"]), full=True)
+        _SHRUNK[pre] = _gfp(clause, t2, o2, len(t2["preds"]), full=True, sign=_sign_class(r2, o2))
         ck.fail(_SHRUNK[pre], f"GreedySelector: {clause} fails",
                 {"kind": "greedy", "task": t2, "opts": o2}, d2[0] if d2 else detail)
 
@@ -1063,28 +1289,60 @@ def _online_jobs(task, fail_at):
             yield j, types.SimpleNamespace(id=f"0.{j}", output={"objective": "F_failed"}), None
             continue
         rows = [s_ for s_ in range(S) if not (p.get("mask") or [False] * S)[s_]]
-        job = types.SimpleNamespace(id=f"0.{j}", output={"objective": 0.0, "online_selector": {"y_pred": preds[j][rows], "y_pred_idx": rows}})
+        y_pred = preds[j][rows]
+        pd_ = task.get("pred_dtype")
+        if pd_ == "list":  # a job may report nested Python lists
+            y_pred = y_pred.tolist()
+        elif pd_:
+            y_pred = y_pred.astype(np.dtype(pd_))  # the generator keeps the values representable in that type
+        idx = np.array(rows, dtype=int) if task.get("idx_array") else rows
+        job = types.SimpleNamespace(id=f"0.{j}", output={"objective": 0.0, "online_selector": {"y_pred": y_pred, "y_pred_idx": idx}})
         yield j, job, dict(task, preds=[q for i, q in enumerate(task["preds"][:j + 1]) if i not in fail_at])
 
 
-def _stored_predictions_problem(online, sub):
+def _stored_predictions_problem(online, sub, what="y_predictors"):
     """every finished job's stored prediction must be valid exactly on the job's own y_pred_idx, with its own values there
-    -> None | text.  Reads public attributes of the implementation only; anything unreadable is a finding, not a crash."""
+    -> None | text.  Reads public attributes of the implementation only; anything unreadable is a finding, not a crash.
+    `online`: the OnlineSelector (its public `y_predictors` is read), or a list — the candidates on_done handed to the
+    inner selector's select()"""
     try:
         _, exp = build(sub)
-        got = list(online.y_predictors)
+        got = list(online if isinstance(online, (list, tuple)) else online.y_predictors)
         if len(got) != len(exp):
-            return f"bookkeeping: y_predictors holds {len(got)} entries after {len(exp)} finished jobs"
+            return f"bookkeeping: {what} holds {len(got)} entries after {len(exp)} finished jobs"
         for k_, (got_a, exp_a) in enumerate(zip(got, exp)):
             gm, em = np.ma.getmaskarray(got_a), np.ma.getmaskarray(exp_a)
             if gm.shape != em.shape or (gm != em).any():
                 return (f"finished job #{k_}: valid samples {np.nonzero(~gm.reshape(len(gm), -1).all(axis=1))[0].tolist()}, "
                         f"its y_pred_idx {np.nonzero(~em.reshape(len(em), -1).all(axis=1))[0].tolist()}")
-            if not np.array_equal(np.ma.getdata(got_a)[~em], np.ma.getdata(exp_a)[~em]):
-                return f"finished job #{k_}: stored values differ from its own predictions on its own indices"
+            gv, ev = np.ma.getdata(got_a)[~em], np.ma.getdata(exp_a)[~em]
+            if not np.array_equal(gv, ev):
+                return (f"finished job #{k_}: stored values {_short(np.asarray(gv).reshape(-1).tolist(), 80)} (dtype {np.ma.getdata(got_a).dtype}) "
+                        f"differ from the predictions it reported on its own indices {_short(np.asarray(ev).reshape(-1).tolist(), 80)}")
     except Exception as e:  # noqa: BLE001
-        return f"bookkeeping: y_predictors cannot be read as one masked prediction per finished job ({type(e).__name__}: {str(e)[:120]})"
+        return f"bookkeeping: {what} cannot be read as one masked prediction per finished job ({type(e).__name__}: {str(e)[:120]})"
     return None
+
+
+def _candidates_req(S, sub, cands):
+    """the candidates handed to the inner selector vs. the model `onlineCandidate` of every finished job (what each job
+    reported: its y_pred_idx and its values, as exact rationals) -> (request, observed) | None when the observed
+    candidates cannot be put on the wire (not one value per target); never raises"""
+    try:
+        jobs, obs = [], []
+        for p, c in zip(sub["preds"], cands):
+            rows = [s_ for s_ in range(S) if not (p.get("mask") or [False] * S)[s_]]
+            jobs.append({"idx": rows, "vals": [rat(float(p["loc"][s_])) for s_ in rows]})
+            data = np.asarray(np.ma.getdata(c), dtype=float).reshape(-1)
+            mask = np.ma.getmaskarray(c).reshape(-1)
+            if len(data) != S or not np.isfinite(data[~mask]).all():
+                return None
+            obs.append([None if m else rat(float(v)) for v, m in zip(data, mask)])
+        if len(obs) != len(sub["preds"]) or len(cands) != len(sub["preds"]):
+            return None
+        return {"op": "online_candidates", "S": S, "jobs": jobs}, obs
+    except Exception:  # noqa: BLE001
+        return None
 
 
 def _run_prior_sessions(make_online, prior):
@@ -1099,21 +1357,155 @@ def _run_prior_sessions(make_online, prior):
             pass
 
 
-def _online_case(ck, d, task, opts, fail_at, prior=None, verbose=False):
+class _QuietCk:
+    """stands in for the Check object while a session is re-run to find out which input class a failure needs"""
+
+    def __init__(self):
+        self.fps = []
+
+    def count(self, *a, **k):
+        pass
+
+    def case(self, *a, **k):
+        pass
+
+    def mismatch(self, *a, **k):
+        pass
+
+    def fail(self, fingerprint, what, case, detail=None):
+        self.fps.append(fingerprint)
+
+
+class _NullBatch:
+    def ask(self, req, fn):
+        pass
+
+    def flush(self):
+        pass
+
+
+_STORAGE_KEYS = ("y_dtype", "pred_dtype", "idx_array")
+
+
+def _storage_class(task):
+    """input class of an online session: how the validation targets, the reported predictions and y_pred_idx are stored
+    -> {task key: class tag}"""
+    tags = {}
+    yd = np.dtype(task["y_dtype"]) if task.get("y_dtype") else np.dtype(float)
+    if yd.kind in "iu":
+        tags["y_dtype"] = "integer-targets"
+    elif yd.kind == "b":
+        tags["y_dtype"] = "bool-targets"
+    elif yd != np.dtype(float):
+        tags["y_dtype"] = f"targets={yd.name}"
+    pd_ = task.get("pred_dtype")
+    if pd_ == "list":
+        tags["pred_dtype"] = "predictions=list"
+    elif pd_ and np.dtype(pd_) != np.dtype(float):
+        tags["pred_dtype"] = "integer-predictions" if np.dtype(pd_).kind in "iu" else f"predictions={np.dtype(pd_).name}"
+    if task.get("idx_array"):
+        tags["idx_array"] = "y_pred_idx=array"
+    return tags
+
+
+class _OnlineReport:
+    """collects the failures of one online session; when the session stores its targets / predictions / indexes in another
+    form than float64 arrays and lists, each failure is attributed: the same session (same values) is re-run quietly with
+    the default storage — all of it, then one aspect at a time — and a failure gets appended to its fingerprint exactly
+    the storage classes without which it does not show up"""
+
+    def __init__(self, ck, case, rerun):
+        self.ck, self.case, self.rerun, self.pending = ck, case, rerun, []
+
+    def fail(self, fingerprint, what, detail):
+        self.pending.append((fingerprint, what, detail))
+
+    def _fps_without(self, keys, cache):
+        k_ = tuple(sorted(keys))
+        if k_ not in cache:
+            q = _QuietCk()
+            try:
+                self.rerun(q, {a: b for a, b in self.case["task"].items() if a not in keys})
+                cache[k_] = set(q.fps)
+            except Exception:  # noqa: BLE001
+                cache[k_] = None
+        return cache[k_]
+
+    def flush(self):
+        pending, self.pending = self.pending, []
+        if not pending:
+            return
+        tags = _storage_class(self.case["task"]) if self.rerun is not None else {}
+        cache = {}
+        for fp, what, detail in pending:
+            if tags:
+                plain = self._fps_without(list(tags), cache)
+                if plain is not None and fp not in plain:
+                    needed = [t for key, t in tags.items()
+                              if len(tags) == 1 or (self._fps_without([key], cache) is not None and fp not in self._fps_without([key], cache))]
+                    fp = fp + ("" if fp.endswith("|") else ",") + ",".join(needed or tags.values())
+            self.ck.fail(fp, what, self.case, detail)
+
+
+def _check_candidates(ck, d, rep_, label, S, sub, cands, case, n_ok, verbose=False):
+    """what on_done handed to the inner selector's select(): one candidate per finished job, valid exactly on the job's
+    own y_pred_idx and holding there the values the job REPORTED (L3 `online-candidates`; L2: model `onlineCandidate`,
+    C20_online_candidate)"""
+    if cands is None:
+        return
+    try:
+        cands = list(cands)
+    except Exception:  # noqa: BLE001
+        rep_.fail("C20|online-candidates|OnlineSelector.on_done|", "OnlineSelector: what is handed to the selector is not a list of "
+                  "candidates", _short(cands))
+        return
+    bad = _stored_predictions_problem(cands, sub, what="the candidate list handed to select()")
+    if bad:
+        rep_.fail("C20|online-candidates|OnlineSelector.on_done|" + ("jobs-with-different-y_pred_idx" if n_ok > 1 and "valid samples" in bad else ""),
+                  "OnlineSelector: the candidates handed to the selector are not the predictions the jobs reported", bad)
+    rq = _candidates_req(S, sub, cands)
+    if rq is None:
+        ck.count(f"{label}:candidates-not-comparable(model not asked)")
+        return
+    req, obs = rq
+
+    def on_reply(rep, obs=obs):
+        ck.count(f"{label}:candidates-compared-with-model", len(obs))
+        if rep["cands"] != obs:
+            k_ = next((i for i, (a, b) in enumerate(zip(rep["cands"], obs)) if a != b), None)
+            ck.mismatch(case, f"candidate of finished job #{k_} handed to select(): impl {_short(obs[k_] if k_ is not None else obs)}, "
+                              f"model onlineCandidate {_short(rep['cands'][k_] if k_ is not None else rep['cands'])}")
+        elif verbose:
+            print("replay:", {"candidates": "as the model onlineCandidate"})
+
+    d.ask(req, on_reply)
+
+
+def _online_case(ck, d, task, opts, fail_at, prior=None, verbose=False, _probe=False):
     """OnlineSelector.on_done after every finished job (the first call sees one candidate); `prior`: earlier sessions
     ({"task", "fail_at"}) that the same GreedySelector object served through other OnlineSelector objects"""
-    from deephyper.ensemble.selector import GreedySelector, OnlineSelector
-
     case = {"kind": "online", "task": task, "opts": opts, "fail_at": sorted(fail_at)}
     if prior:
         case["prior"] = prior
         ck.count(f"online:reused-selector:earlier-sessions={len(prior)}")
+    rep_ = _OnlineReport(ck, case, None if _probe else
+                         (lambda q, t: _online_case(q, _NullBatch(), t, opts, fail_at, prior=prior, _probe=True)))
+    try:
+        _online_session(ck, d, rep_, case, task, opts, fail_at, prior, verbose, _probe)
+    finally:
+        rep_.flush()
+
+
+def _online_session(ck, d, rep_, case, task, opts, fail_at, prior, verbose, _probe):
+    from deephyper.ensemble.selector import GreedySelector, OnlineSelector
+
     tag = "reused-selector" if prior else ""
     holder = {}
 
     class Sel(GreedySelector):
         # the selector OnlineSelector calls; every call is recorded like a direct call
         def select(self, y_, y_predictors):
+            holder["cands"] = y_predictors
             rec, agg, loss, RS, inner_agg, inner_loss = _make_env(task, y_predictors, min(opts["k_init"], len(y_predictors)))
             self.loss_func, self.aggregator = loss, agg
             self.random_state = RS(opts.get("seed", 0))
@@ -1136,8 +1528,8 @@ def _online_case(ck, d, task, opts, fail_at, prior=None, verbose=False):
             try:
                 online.on_done(job)
             except Exception as e:  # noqa: BLE001
-                ck.fail(f"C20|never-fails|OnlineSelector.on_done|failed-job{',' + tag if tag else ''}",
-                        "OnlineSelector: on_done raises on a failed job", case, f"{type(e).__name__}: {str(e)[:160]}")
+                rep_.fail(f"C20|never-fails|OnlineSelector.on_done|failed-job{',' + tag if tag else ''}",
+                          "OnlineSelector: on_done raises on a failed job", f"{type(e).__name__}: {str(e)[:160]}")
                 return
             continue
         n_ok += 1
@@ -1149,29 +1541,31 @@ def _online_case(ck, d, task, opts, fail_at, prior=None, verbose=False):
             res = dict(holder, outcome="toolong")
         except Exception as e:  # noqa: BLE001
             res = dict(holder, outcome="exc", exc=f"{type(e).__name__}: {str(e)[:160]}")
+        res.pop("cands", None)
         if "rec" not in holder:
             # the selector was not asked (or on_done failed before asking it): nothing to compare with the model
             if res["outcome"] == "exc":
-                ck.fail(f"C20|never-fails|OnlineSelector.on_done|{tag}", "OnlineSelector: on_done raises", case, res["exc"])
+                rep_.fail(f"C20|never-fails|OnlineSelector.on_done|{tag}", "OnlineSelector: on_done raises", res["exc"])
                 return
             ck.count("online:selector-not-called(model not asked)")
         bad = _stored_predictions_problem(online, sub)
         if bad and bad.startswith("bookkeeping:"):
-            ck.fail("C20|online-bookkeeping|OnlineSelector.on_done|", "y_predictors does not hold one entry per finished job", case, bad)
+            rep_.fail("C20|online-bookkeeping|OnlineSelector.on_done|", "y_predictors does not hold one entry per finished job", bad)
         elif bad:
-            ck.fail("C20|online-masked-predictions|OnlineSelector.on_done|jobs-with-different-y_pred_idx" if n_ok > 1 else
-                    "C20|online-masked-predictions|OnlineSelector.on_done|", "OnlineSelector: a member is recorded as valid on "
-                    "samples it never predicted (or with other values)", case, bad)
+            rep_.fail("C20|online-masked-predictions|OnlineSelector.on_done|jobs-with-different-y_pred_idx" if n_ok > 1 else
+                      "C20|online-masked-predictions|OnlineSelector.on_done|", "OnlineSelector: a member is recorded as valid on "
+                      "samples it never predicted (or with other values)", bad)
+        _check_candidates(ck, d, rep_, "online", task["S"], sub, holder.get("cands"), case, n_ok, verbose)
         if res["outcome"] in ("ok", "malformed") and not opts["bagging"]:
             direct = run_greedy(dict(sub, history=None), opts)
             if (res["outcome"] != "ok" or direct["outcome"] != "ok" or direct["indices"] != res["indices"]
                     or len(direct["weights"]) != len(res["weights"])
                     or any(abs(a - b) > 1e-12 for a, b in zip(direct["weights"], res["weights"]))):
-                ck.fail(f"C20|online-selection|OnlineSelector.on_done|{tag}", "OnlineSelector: selection differs from a direct "
-                        "select() on the jobs' own predictions", case,
-                        {"online": [res.get("indices"), res.get("weights"), res.get("problem")],
-                         "direct": [direct.get("indices"), direct.get("weights"), direct.get("exc")]})
-        if "rec" in holder:
+                rep_.fail(f"C20|online-selection|OnlineSelector.on_done|{tag}", "OnlineSelector: selection differs from a direct "
+                          "select() on the predictions the jobs reported",
+                          {"online": [res.get("indices"), res.get("weights"), res.get("problem")],
+                           "direct": [direct.get("indices"), direct.get("weights"), direct.get("exc")]})
+        if "rec" in holder and not _probe:
             _greedy_case(ck, d, sub, opts, label="online", res=res, verbose=verbose)
         if res["outcome"] != "ok":
             break
@@ -1181,71 +1575,120 @@ def _online_case(ck, d, task, opts, fail_at, prior=None, verbose=False):
             ids = list(online.selected_predictors_job_ids)
             want = [ok_ids[i] for i in res["indices"]] if all(0 <= i < n_av for i in res["indices"]) else None
             if want is None or ids != want:
-                ck.fail("C20|online-job-ids|OnlineSelector.selected_predictors_job_ids|", "job ids do not match the selected indexes",
-                        case, {"job_ids": ids, "indexes": res["indices"], "finished": ok_ids})
+                rep_.fail("C20|online-job-ids|OnlineSelector.selected_predictors_job_ids|", "job ids do not match the selected indexes",
+                          {"job_ids": ids, "indexes": res["indices"], "finished": ok_ids})
             # the ensemble handed out: the selected members, loaded in selected order, with the selected weights
             ens = online.ensemble
             if (ens is proto or getattr(ens, "tag", None) != "ensemble-prototype"
                     or list(ens.predictors) != [("loaded", i) for i in ids] or [float(x) for x in ens.weights] != res["weights"]
                     or proto.predictors is not None):
-                ck.fail("C20|online-ensemble|OnlineSelector.ensemble|", "ensemble does not hold the selected members with their weights",
-                        case, {"predictors": repr(getattr(ens, "predictors", None)), "weights": repr(getattr(ens, "weights", None))})
+                rep_.fail("C20|online-ensemble|OnlineSelector.ensemble|", "ensemble does not hold the selected members with their weights",
+                          {"predictors": repr(getattr(ens, "predictors", None)), "weights": repr(getattr(ens, "weights", None))})
         except Exception as e:  # noqa: BLE001 - reading the public results of the selection must not fail either
-            ck.fail("C20|online-job-ids|OnlineSelector.selected_predictors_job_ids|unreadable", "OnlineSelector: the selected job ids / "
-                    "ensemble cannot be read after a successful on_done", case, f"{type(e).__name__}: {str(e)[:160]}")
+            rep_.fail("C20|online-job-ids|OnlineSelector.selected_predictors_job_ids|unreadable", "OnlineSelector: the selected job ids / "
+                      "ensemble cannot be read after a successful on_done", f"{type(e).__name__}: {str(e)[:160]}")
             break
 
 
-def _online_topk_case(ck, d, task, k, fail_at, prior=None, verbose=False):
-    """OnlineSelector driving a TopKSelector: after every finished job the stored predictions must be valid exactly on
-    the job's own y_pred_idx and the selection must be the k lowest losses computed from the jobs' own predictions;
+def _online_topk_case(ck, d, task, k, fail_at, prior=None, verbose=False, _probe=False):
+    """OnlineSelector driving a TopKSelector: after every finished job the stored predictions and the candidates handed to
+    the selector must be valid exactly on the job's own y_pred_idx with the values the job reported, and the selection
+    must be the k lowest losses of the predictions the jobs REPORTED (true losses: computed by the harness from the jobs'
+    own reports, whatever the candidates handed to the selector look like);
     `prior`: earlier sessions ({"task", "fail_at"}) the same TopKSelector object served through other OnlineSelector objects"""
-    from deephyper.ensemble.selector import OnlineSelector, TopKSelector
-
     case = {"kind": "online-topk", "task": task, "k": k, "fail_at": sorted(fail_at)}
     if prior:
         case["prior"] = prior
         ck.count(f"online-topk:reused-selector:earlier-sessions={len(prior)}")
+    rep_ = _OnlineReport(ck, case, None if _probe else
+                         (lambda q, t: _online_topk_case(q, _NullBatch(), t, k, fail_at, prior=prior, _probe=True)))
+    try:
+        _online_topk_session(ck, d, rep_, case, task, k, fail_at, prior, verbose)
+    finally:
+        rep_.flush()
+
+
+def _online_topk_session(ck, d, rep_, case, task, k, fail_at, prior, verbose):
+    from deephyper.ensemble.selector import OnlineSelector, TopKSelector
+
     tag = ",reused-selector" if prior else ""
     _, _, _, _, _, inner_loss = _make_env(task, [], 0)
-    selector = TopKSelector(inner_loss, k=k)
+    holder = {}
+
+    class Sel(TopKSelector):
+        def select(self, y_, y_predictors):
+            holder["cands"] = y_predictors
+            return super().select(y_, y_predictors)
+
+    selector = Sel(inner_loss, k=k)
 
     def make_online(t):
         return OnlineSelector(build(dict(t, masked=False, preds=[]))[0], selector, None, lambda job_id: job_id)
 
     _run_prior_sessions(make_online, prior)
     online = make_online(task)
+    y_true = build(dict(task, masked=False, preds=[]))[0]
+    n_ok = 0
     for j, job, sub in _online_jobs(task, fail_at):
         if sub is not None:
             ck.case({"kind": "online-topk", "task": sub, "k": k, "prior": prior or []}, nontrivial=len(sub["preds"]) >= 2)
             ck.count("online-topk:calls")
+        holder.clear()
         try:
             online.on_done(job)
         except Exception as e:  # noqa: BLE001
-            ck.fail(f"C20|never-fails|OnlineSelector.on_done|selector=TopK{tag}", "OnlineSelector(TopK): on_done raises", case,
-                    f"{type(e).__name__}: {str(e)[:160]}")
+            rep_.fail(f"C20|never-fails|OnlineSelector.on_done|selector=TopK{tag}", "OnlineSelector(TopK): on_done raises",
+                      f"{type(e).__name__}: {str(e)[:160]}")
             return
         if sub is None:
             continue
+        n_ok += 1
         bad = _stored_predictions_problem(online, sub)
         if bad and bad.startswith("bookkeeping:"):
-            ck.fail("C20|online-bookkeeping|OnlineSelector.on_done|selector=TopK", "y_predictors does not hold one entry per finished job",
-                    case, bad)
+            rep_.fail("C20|online-bookkeeping|OnlineSelector.on_done|selector=TopK", "y_predictors does not hold one entry per finished job", bad)
         elif bad:
-            ck.fail("C20|online-masked-predictions|OnlineSelector.on_done|jobs-with-different-y_pred_idx",
-                    "OnlineSelector: a member is recorded as valid on samples it never predicted (or with other values)", case, bad)
-        direct = run_topk(dict(sub, history=None), k)
+            rep_.fail("C20|online-masked-predictions|OnlineSelector.on_done|jobs-with-different-y_pred_idx",
+                      "OnlineSelector: a member is recorded as valid on samples it never predicted (or with other values)", bad)
+        _check_candidates(ck, d, rep_, "online-topk", task["S"], sub, holder.get("cands"), case, n_ok, verbose)
+        # the selection against the TRUE losses: those of the predictions the jobs reported, w.r.t. the session's targets
         try:
             gi, gw, problem = _norm_output((online.selected_predictors_indexes, online.selected_predictors_weights))
         except Exception as e:  # noqa: BLE001
             gi, gw, problem = None, None, f"the selection cannot be read ({type(e).__name__})"
-        if problem or direct["outcome"] != "ok" or (direct["indices"], direct["weights"]) != (gi, gw):
-            ck.fail(f"C20|online-selection|OnlineSelector.on_done|selector=TopK{tag}", "OnlineSelector(TopK): not the k lowest losses "
-                    "of the jobs' own predictions", case,
-                    {"online": [gi, gw, problem], "direct": [direct.get("indices"), direct.get("weights"), direct.get("exc")],
-                     "own_losses": direct.get("losses")})
+        true_losses = _own_losses(inner_loss, y_true, build(sub)[1])
+        judged = {"n": len(sub["preds"]), "losses": true_losses, "indices": gi, "weights": gw, "problem": problem}
+        fails = _topk_oracle(judged, k)
+        if fails:
+            rep_.fail(f"C20|online-selection|OnlineSelector.on_done|selector=TopK{tag}", "OnlineSelector(TopK): not the k lowest losses "
+                      "of the predictions the jobs reported",
+                      {"online": [gi, gw, problem], "clauses": fails, "true_losses": true_losses})
         if verbose:
-            print("replay:", {"job": j, "online": [gi, gw], "direct": direct.get("indices")})
+            print("replay:", {"job": j, "online": [gi, gw], "true_losses": true_losses, "oracle": fails or "holds"})
+
+
+def _predictor_clauses_failing(res, n, use_predict, fail, evaluator):
+    """the clauses of the property that fail on the outcome of one EnsemblePredictor call -> set of clause names (the same
+    statements as in `_predictor_case`, without details; never raises)"""
+    try:
+        if evaluator not in ("scripted", None, "thread") and not isinstance(evaluator, dict):
+            return {"constructor-rejects"} if res["outcome"] != "exc" or res.get("exc_type") != "ValueError" else set()
+        if fail is not None:
+            if res["outcome"] != "exc" or res.get("exc_type") != "RuntimeError":
+                return {"member-error-reported"}
+            return {"member-order"} if f"predictors[{fail}]" not in res["exc"] or f"({fail})" not in res["exc"] else set()
+        if res["outcome"] == "exc":
+            return {"never-fails"}
+        if res["outcome"] == "malformed":
+            return {"member-order"}
+        if use_predict:
+            w = res["weights"]
+            exp = [sum(w[i] * v for i, v in enumerate(col)) / sum(w)
+                   for col in ([float(i) for i in range(n)], [float(i * i) + 0.5 for i in range(n)])]
+            bad = any(abs(a - b) > 1e-12 * (1 + abs(b)) for a, b in zip(res["predict"], exp)) or len(res["predict"]) != 2
+            return {"member-order"} if bad else set()
+        return {"member-order"} if res["returned"] != list(range(n)) else set()
+    except Exception:  # noqa: BLE001
+        return set()
 
 
 def _predictor_case(ck, d, order, use_predict=False, loader=False, fail=None, evaluator="scripted", history=None,
@@ -1260,8 +1703,9 @@ def _predictor_case(ck, d, order, use_predict=False, loader=False, fail=None, ev
                                                   else "other-sizes"))
     n = len(order)
     site = "EnsemblePredictor." + ("predict" if use_predict else "predictions_from_predictors")
+    kinds = _kinds_of(loader, n)
     cls_ = ",".join(x for x in ("evaluator=thread" if evaluator == "scripted" else f"evaluator={evaluator}",
-                               "loader" if loader else "", "member-raises" if fail is not None else "",
+                               _kinds_class(kinds), "member-raises" if fail is not None else "",
                                "reused-evaluator" if history else "") if x)
     seen_members = [m for _, m in res["seen"]]
     if any(m is None for m in seen_members):
@@ -1271,7 +1715,14 @@ def _predictor_case(ck, d, order, use_predict=False, loader=False, fail=None, ev
         seen_members = []
     ck.case(case, nontrivial=n >= 2 and seen_members != sorted(seen_members))
     ck.count(f"predictor:{mode}:members={n}")
-    ck.count(f"predictor:evaluator={evaluator}{':loader' if loader else ''}{':member-raises' if fail is not None else ''}")
+    ck.count(f"predictor:evaluator={evaluator}{':' + _kinds_class(kinds) if _kinds_class(kinds) else ''}"
+             f"{':member-raises' if fail is not None else ''}")
+    if n >= 2:
+        ck.count("predictor:members:" + ("loaders-before-predictors" if kinds == "".join(sorted(kinds, key=lambda c: c not in "LF"))
+                                         and _kinds_class(kinds) == "mixed-members" else
+                                         "a-predictor-before-a-loader" if _kinds_class(kinds) == "mixed-members" else
+                                         "all-loaders" if _kinds_class(kinds) == "loader" else "all-in-memory"))
+        ck.count("predictor:member-kinds=" + "".join(sorted(set(kinds))))
     if evaluator == "scripted":
         ck.count("predictor:completion-order-" + ("as-scripted" if seen_members == list(order) else "other"))
         ck.count("predictor:completion-" + ("in-submission-order" if seen_members == sorted(seen_members) else "out-of-order"))
@@ -1300,6 +1751,9 @@ def _predictor_case(ck, d, order, use_predict=False, loader=False, fail=None, ev
         if seen_members:
             def on_reply(rep, case=case, res=res):
                 model = [None if v is None else float(unrat(v)) for v in rep["loc"]]
+                if not rep["bad_id"] and not rep.get("hs_ok", True):
+                    ck.mismatch(case, f"the jobs' ids do not increase along the predictors list (hypothesis of C20_order / "
+                                      f"C20_member_order_any_kind: members are submitted in list order): {res['seen']}")
                 if rep["bad_id"] or len(model) != len(res["predict"]) or any(
                         m is None or abs(m - a) > 1e-12 * (1 + abs(m)) for m, a in zip(model, res["predict"])):
                     ck.mismatch(case, f"predict(): impl {res['predict']}, model (sortById of completion order {res['seen']}, "
@@ -1307,27 +1761,46 @@ def _predictor_case(ck, d, order, use_predict=False, loader=False, fail=None, ev
                 elif verbose:
                     print("replay:", {"model": model, "model_vs_impl": "agree"})
 
-            d.ask({"op": "predict", "ids": [i for i, _ in res["seen"]],
+            d.ask({"op": "predict", "ids": [i for i, _ in res["seen"]], "members": list(seen_members),
                    "vals": [[rat(float(m)), rat(float(m * m) + 0.5)] for m in seen_members],
                    "ws": [rat(x) for x in res["weights"]]}, on_reply)
     else:
         if seen_members:
             def on_reply(rep, case=case, res=res, seen_members=seen_members):
                 model = [seen_members[p] for p in rep["perm"]]
-                if rep["bad_id"] or model != res["returned"]:
+                if not rep["bad_id"] and not rep.get("hs_ok", True):
+                    ck.mismatch(case, f"the jobs' ids do not increase along the predictors list (hypothesis of C20_order / "
+                                      f"C20_member_order_any_kind: members are submitted in list order): {res['seen']}")
+                if rep["bad_id"] or model != res["returned"] or rep.get("by_member", model) != model:
                     ck.mismatch(case, f"impl returned members {res['returned']}, model (sortById of completion order "
                                       f"{res['seen']}) {model}")
                 elif verbose:
                     print("replay:", {"model": model, "model_vs_impl": "agree"})
 
-            d.ask({"op": "sort", "ids": [i for i, _ in res["seen"]]}, on_reply)
+            d.ask({"op": "sort", "ids": [i for i, _ in res["seen"]], "members": list(seen_members)}, on_reply)
         if res["returned"] != list(range(n)):
             fails.append(("member-order", f"predictions of members {res['returned']} returned for predictors 0..{n - 1}; "
                                           f"completion order {seen_members}"))
     if verbose:
         print("replay:", {"impl": res, "oracle": fails or "holds"})
+    plain = None
     for clause, detail in fails:
-        ck.fail(f"C20|{clause}|{site}|{cls_}", f"EnsemblePredictor: {clause} fails", case, detail)
+        kc = _kinds_class(kinds)
+        if kc:
+            # does the failure need members of these kinds?  the same call (same orders, same history) with in-memory
+            # duck-typed members everywhere; the member-kind class stays in the fingerprint only if that one passes
+            if plain is None:
+                try:
+                    r2 = run_predictor(order, mode, loader=False, fail=fail, evaluator=evaluator, via_copy=via_copy,
+                                       history=[dict(h, loader=False) for h in history or []])
+                    plain = _predictor_clauses_failing(r2, n, use_predict, fail, evaluator)
+                except Exception:  # noqa: BLE001
+                    plain = set()
+            if clause in plain:
+                kc = ""
+        cls2 = ",".join(x for x in ("evaluator=thread" if evaluator == "scripted" else f"evaluator={evaluator}", kc,
+                                    "member-raises" if fail is not None else "", "reused-evaluator" if history else "") if x)
+        ck.fail(f"C20|{clause}|{site}|{cls2}", f"EnsemblePredictor: {clause} fails", case, detail)
 
 
 def _corpus():
@@ -1364,9 +1837,14 @@ def run(ck):
                "histories: one TopK / Greedy selector object serving 2..4 select() calls, each derived from the one before (unrelated "
                "candidates of smaller / equal / larger number, the same candidates permuted, the same candidates against another target, "
                "the list grown by appending, a sub-list, the same call again), EVERY call judged like a call on a fresh selector against "
-               "the candidates' own losses of that call; OnlineSelector fed job by job (failed jobs interleaved), its inner selector "
-               "object possibly reused from an earlier session; EnsemblePredictor with every finish order of <=4 (quick) / "
-               "<=5 (thorough) members; non-trivial = >=2 candidates and at least one greedy iteration / k<n / completion out of order")
+               "the candidates' own losses of that call; losses of any sign (NLL of confident members; loss - c for c making the "
+               "aggregated losses negative / zero at the best member or at the start / mixed / far from zero) with near-copies of the "
+               "best member; OnlineSelector fed job by job (failed jobs interleaved), its inner selector "
+               "object possibly reused from an earlier session, targets stored as float64/float32/int64/int32/uint8/bool x reports as "
+               "float64/float32/int64 arrays or nested lists x y_pred_idx as list or array; EnsemblePredictor with every finish order "
+               "of <=4 (quick) / <=5 (thorough) members, members of four kinds (duck-typed, Predictor subclass, PredictorLoader, "
+               "PredictorFileLoader of a pickled member) in every in-memory/loader pattern x every finish order of <=3 / <=4 members; "
+               "non-trivial = >=2 candidates and at least one greedy iteration / k<n / completion out of order")
     ck.assumptions = [
         "loss function and aggregator are environment: the model's aggregated loss is an arbitrary function of the multiset of members "
         "(observed through the loss/aggregator objects given to the selector)",
@@ -1402,6 +1880,23 @@ def run(ck):
             opts.update(k_init=k0, k=k0 + rng.choice([1, 2, 4]), early_stopping=rng.random() < 0.85,
                         eps_tol=rng.choice([1e-3, 2.0 ** -10]), max_it=rng.choice([-1, -1, 3]))
             _greedy_case(ck, d, task, opts, label="compensating")
+        # losses of any sign: NLL of confident members, and the library's losses measured from another origin (loss - c:
+        # negative, zero at the best member / at the starting ensemble, mixed sign, far from zero), with near-copies of the
+        # best member among the candidates; a fifth of them as chains on one selector object, a tenth through TopK
+        for _ in range(ck.pick(260, 2500)):
+            n = rng.choice([1, 2, 2, 3, 3, 4, 5, 6, 8, 10])
+            task, opts = gen_signed(rng, n)
+            ck.count(f"signed:origin={task['origin']}")
+            r = rng.random()
+            if r < 0.1:
+                _topk_case(ck, d, task, rng.choice([1, 2, 3, 5]))
+                continue
+            if r < 0.3:
+                steps = [task]
+                for _ in range(rng.randint(1, 2)):
+                    steps.append(_next_step(rng, steps[-1], rng.choice(_RELATIONS)))
+                task = dict(steps[-1], history=steps[:-1])
+            _greedy_case(ck, d, task, opts, label="signed")
         # histories: one selector object serving several select() calls (TopK / Greedy keep no state by contract)
         for _ in range(ck.pick(150, 2000)):
             n = rng.choice([1, 2, 3, 4, 5, 6, 8, 12])
@@ -1410,7 +1905,7 @@ def run(ck):
             n = rng.choice([1, 2, 3, 4, 5, 6, 8, 12])
             _topk_case(ck, d, gen_with_history(rng, n), rng.choice([1, 1, 2, 2, 3, 5, 8]))
         prev_online = {}  # selector kind -> the previous generated session (served again, first, by the next one's selector)
-        for _ in range(ck.pick(60, 700)):
+        for _ in range(ck.pick(80, 800)):
             n = rng.choice([1, 2, 3, 4, 5, 6, 8])
             task = gen_task(rng, n)
             while task["kind"] != "reg":  # OnlineSelector stores predictions shaped like y: regression
@@ -1421,11 +1916,33 @@ def run(ck):
             # targets away from 0 (a sample wrongly recorded as predicted holds the value 0)
             S = rng.choice([2, 3, 4, 6, 8])
             off = rng.choice([3.0, -5.0, 10.0])
-            task["S"], task["y"] = S, [off + rng.randint(-8, 8) / 8 for _ in range(S)]
+            # how the validation targets are stored (counts, ratings, labels: integer / boolean arrays; single precision) and
+            # how a job reports its predictions (float64 / float32 arrays, integer arrays, nested lists); every value is
+            # representable in its storage type, so the session means the same whatever the types
+            yd = rng.choice(["float64"] * 5 + ["float32", "int64", "int64", "int32", "uint8", "bool"])
+            pdt = rng.choice([None] * 4 + ["float32", "list", "int64"])
+            if np.dtype(yd).kind == "b":
+                ys = [float(rng.randrange(2)) for _ in range(S)]
+            elif np.dtype(yd).kind in "iu":
+                ys = [(abs(off) if yd == "uint8" else off) + rng.randint(-2, 2) for _ in range(S)]
+            else:
+                ys = [off + rng.randint(-8, 8) / 8 for _ in range(S)]
+            task["S"], task["y"] = S, ys
+            if yd != "float64":
+                task["y_dtype"] = yd
+            if pdt:
+                task["pred_dtype"] = pdt
+            if rng.random() < 0.3:
+                task["idx_array"] = True
+            ck.count(f"online:targets={yd}")
+            ck.count(f"online:predictions={pdt or 'float64'}")
             pattern = rng.choice(["folds", "folds", "overlap", "full", "mixed"])
             F = rng.choice([2, 3]) if S >= 3 else 2
             for j_, p_ in enumerate(task["preds"]):
-                p_["loc"] = [t + rng.randint(-8, 8) / 8 for t in task["y"]]
+                if pdt == "int64":  # integer-valued reports (labels, counts)
+                    p_["loc"] = [float(round(t) + rng.randint(-3, 3)) for t in task["y"]]
+                else:  # real-valued reports (eighths: exact in single precision too)
+                    p_["loc"] = [t + rng.randint(-8, 8) / 8 for t in task["y"]]
                 pat = pattern if pattern != "mixed" else rng.choice(["folds", "overlap", "full"])
                 if pat == "folds":
                     mk = [s_ % F != j_ % F for s_ in range(S)]
@@ -1460,11 +1977,30 @@ def run(ck):
             order = list(range(n))
             rng.shuffle(order)
             _predictor_case(ck, d, order, use_predict=rng.random() < 0.5, loader=True)
+
+        def rnd_kinds(n_):
+            """a random member pattern over the four kinds of member object"""
+            return "".join(rng.choice("MPLF") for _ in range(n_))
+
+        # mixed ensembles: EVERY pattern of in-memory member / loader (2^n; which in-memory class and which loader class at
+        # each position is drawn) x EVERY finish order, for <= 3 (quick) / <= 4 (thorough) members; larger ones sampled
+        nmix = ck.pick(3, 4)
+        for n in range(1, nmix + 1):
+            for pat in itertools.product((False, True), repeat=n):
+                for order in itertools.permutations(range(n)):
+                    kinds_ = "".join(rng.choice("LF") if ld else rng.choice("MP") for ld in pat)
+                    _predictor_case(ck, d, list(order), use_predict=rng.random() < 0.4, loader=kinds_)
+        for _ in range(ck.pick(16, 250)):
+            n = rng.randint(nmix + 1, 6)
+            order = list(range(n))
+            rng.shuffle(order)
+            _predictor_case(ck, d, order, use_predict=rng.random() < 0.4, loader=rnd_kinds(n))
         for _ in range(ck.pick(8, 60)):  # a member raises: the error must name that member, whatever finished first
             n = rng.randint(1, 4)
             order = list(range(n))
             rng.shuffle(order)
-            _predictor_case(ck, d, order, use_predict=rng.random() < 0.5, fail=rng.randrange(n), loader=rng.random() < 0.3)
+            _predictor_case(ck, d, order, use_predict=rng.random() < 0.5, fail=rng.randrange(n),
+                            loader=rng.choice([False, False, True, rnd_kinds(n), rnd_kinds(n)]))
         # histories: several predict() / predictions_from_predictors() calls on ONE EnsemblePredictor, or on shallow copies
         # sharing its evaluator (what OnlineSelector.ensemble hands out), with different member counts: the evaluator's job
         # counter keeps increasing across calls
@@ -1475,11 +2011,12 @@ def run(ck):
                 return o_
             n = rng.randint(1, 4)
             hist = [{"finish_order": rnd_order(rng.choice([k_ for k_ in (1, 2, 3, 4, 5) if k_ != n] + [n])),
-                     "mode": rng.choice(["list", "predict"]), "loader": rng.random() < 0.2,
+                     "mode": rng.choice(["list", "predict"]), "loader": rng.choice([False, False, False, True, rnd_kinds(5)]),
                      "fail": None, "copy": rng.random() < 0.4} for _ in range(rng.randint(1, 3))]
             if rng.random() < 0.15:
                 hist[0]["fail"] = 0
-            _predictor_case(ck, d, rnd_order(n), use_predict=rng.random() < 0.5, loader=rng.random() < 0.2,
+            _predictor_case(ck, d, rnd_order(n), use_predict=rng.random() < 0.5,
+                            loader=rng.choice([False, False, True, rnd_kinds(n), rnd_kinds(n)]),
                             fail=(rng.randrange(n) if rng.random() < 0.1 else None), history=hist, via_copy=rng.random() < 0.4)
         # the other forms of the `evaluator` argument ("serial" is not one the predictor can run with: SerialEvaluator
         # refuses the non-coroutine wrapper at construction; the property quantifies over the thread backend)
